@@ -347,7 +347,8 @@ theorem unreg_inv {c : Cfg} {s : Sys} {p : Pid} {T : List (List Task)} (h : Inv 
   tasksOK := hT
 
 
-theorem regKick_repaired (c : Cfg) : regKick Mode.repaired c = c.kickMode := rfl
+theorem regKick_repaired (c : Cfg) (p : Pid) : regKick Mode.repaired c p = c.kickMode := rfl
+theorem canKick_repaired (c : Cfg) (p : Pid) : canKick Mode.repaired c p = c.kickMode := rfl
 
 /-- every atomic action of the repaired machine preserves the invariant -/
 theorem stepTask_inv {c : Cfg} {s s' : Sys} {t : Nat} {task : Task} {rest : List Task} (h : Inv c s)
